@@ -30,6 +30,7 @@ import signal
 from ..impl import c10_handlers as hd
 from ..impl import c10_round as rm
 from ..translate import c10 as tr
+from ..translate import c10_classes as trc
 
 PROPERTY = "C10"
 THEOREM_MODULE = "NemoVerif.Theorems.C10"
@@ -44,9 +45,16 @@ RULE = ("program = faulty flow (3-7 statements from: assignment, action send, ma
         "with action/flow arguments; match in when/or-when/else), two errors in one candidate scan. Every program also with a longer "
         "history: error only in the K-th (2nd/3rd) instance of the activated flow, the walk to the error repeated after it, observers "
         "ahead of the faulty flow or reacting through a sub-flow; loops with break/continue; start by a complete raw StartFlow. "
+        "WAVE 6: statements whose error is raised OUTSIDE every try block of the state machine and leaves run_to_completion (action-event validation "
+        "when the outgoing UMIM event is built: wrong-typed / missing / reserved parameters; bad default value expressions of flow parameters / return "
+        "members and StartFlow events no instance can be created from; bad expressions in @meta decorator tags, evaluated when the flow finishes), external "
+        "events run_to_completion rejects, several events per process_events call (also 9-30 harmless events in front of the rejected one), each with "
+        "activated handler flows that answer every `match ColangError()` with a marker event. "
         "non-trivial = the erroneous statement was "
         "reached (an exception was raised inside the interpreter) or the case is an immediate finish/fail of an activated flow.")
 TRUSTED_BASE = [
+    "translator harness/translate/c10_classes.py (AST of the except branch of process_events, of the ColangError constructors of statemachine.py and of the "
+    "class-test guard; the tree's own parser + get_event_from_element for the reference event of `match ColangError()`)",
     "translator harness/translate/c10.py (element classification table; AST check of slide()'s dispatch)",
     "correspondence harness harness/props/C10.py (monkeypatched slide / _flow_head_changed / eval_expression / "
     "_compute_event_matching_score recorders) + Lean driver Drive/C10.lean",
@@ -54,6 +62,10 @@ TRUSTED_BASE = [
     "and on the translator's RProg (wait kinds, late-death analysis, catchAt) in harness/impl/c10_round.py; a 40*(elements+10) per-call backstop remains",
 ]
 ASSUMPTIONS = [
+    "conversion step of process_events (Models/ProcessEvents.lean): escaped_error_is_reported is a theorem about the loop over an ARBITRARY run_to_completion "
+    "and an observer machine that applies the class test isinstance(ref_event, type(event)); that the real matcher lets a waiting `match ColangError()` head match "
+    "once the class test passes is matching (C04/C09), checked here by the oracle (every converted error makes every total reporting handler react) and by the "
+    "driver op C10.convert on the classes observed at run time; the class data (Generated/C10Classes.lean) rests on the translator harness/translate/c10_classes.py",
     "whole-round termination (T2 run_terminates) is a theorem about the token abstraction RoundMachine, not about CoreVM; programs the verified "
     "checker roundRanked rejects are outside the hypothesis (no termination verdict for them)",
     "the ErrContain FRAGMENT does not model the recursive child/action clean-up of _abort_flow/_finish_flow nor forked-head recursion; "
@@ -129,7 +141,37 @@ ERR_STMT = {
     "start-too-many-args": ["await helper_p(1, 2, 3)"],
     "match-bad-action-event": ['match UtteranceBotAction(script="a").Nope()'],
     "send-startflow-no-id": ["send StartFlow()"],
+    # wave 6 -- runtime errors of a statement that are raised OUTSIDE every try block of the state machine (found by a static scan of
+    # the raise / assert sites reachable from run_to_completion without passing a try, harness/translate/c10_classes.py::escape_sites,
+    # + dynamic search): they leave run_to_completion and are converted into a ColangError event by RuntimeV2_x.process_events (the third
+    # mechanism of the property's anchors).
+    # (a) a wrong-typed / missing / reserved parameter of an action or event is only rejected when the OUTGOING UMIM event is built
+    #     (utils.new_event_dict -> ensure_valid_event, called from _resolve_action_conflicts)
+    "umim-script-int": ["$n = 3", "start UtteranceBotAction(script=$n)"],
+    "umim-await-script-int": ["await UtteranceBotAction(script=3)"],
+    "umim-script-missing": ["start UtteranceBotAction()"],
+    "umim-when-script-int": ["when UtteranceBotAction(script=3)", "  $e = 1", "else", "  $e = 2"],
+    "umim-send-uid-int": ["send Out(uid=3)"],
+    "umim-send-created-int": ["send Out(event_created_at=3)"],
+    "umim-send-event-type": ['send Out(event_type="x")'],
+    "umim-bare-action-no-uid": ['send UtteranceUserActionFinished(final_transcript="hi")'],
+    "umim-finished-transcript-int": ['send UtteranceUserActionFinished(final_transcript=3, action_uid="a", is_success=True)'],
+    "umim-is-success-str": ['send FooActionFinished(action_uid="a", is_success="yes")'],
+    "umim-unsuccess-no-reason": ['send FooActionFinished(action_uid="a", is_success=False)'],
+    # (b) a bad default value expression of a flow parameter / return member is evaluated when the StartFlow event is PROCESSED
+    #     (create_flow_instance, called from _process_internal_events_without_default_matchers); an internal StartFlow event the flow
+    #     instance cannot be created from
+    "default-param-bad": ["start helper_d"],
+    "default-param-bad-await": ["await helper_d"],
+    "default-return-bad": ["start helper_r"],
+    "default-param-bad-activate": ["activate helper_d"],
+    # (c) a bad expression in the meta tag of a flow decorator is evaluated when the flow FINISHES (_log_action_or_intents, called from
+    #     _finish_flow behind the try block of _advance_head_front)
+    "meta-intent-bad": ["await helper_i"],
+    "meta-action-bad": ["await helper_a"],
 }
+# the kinds above: the error is raised outside slide / the matching scan (recorded as phase emit / start / finish)
+ESCAPE_KINDS = tuple(k for k in ERR_STMT if k.startswith(("umim-", "default-", "meta-")))
 ERR_FLOWS = {
     "start-too-many-args": ["flow helper_p $a", "  match NeverHP()", ""],
     "match-child": ["flow helper_m", "  match M()", "  match NeverH()", ""],
@@ -139,8 +181,24 @@ ERR_FLOWS = {
     "ref-bad-event-send": ["flow helper_h", "  match NeverHH()", ""],
     "when-flow-bad-arg": ["flow helper_w $p", "  match NeverHW()", ""],
     "match-child-both": ["flow helper_e", '  match M(x=regex("("))', "  match NeverH()", ""],
+    "default-param-bad": ["flow helper_d $p = \"t\" + 3", "  match NeverHD()", ""],
+    "default-param-bad-await": ["flow helper_d $p = \"t\" + 3", "  match NeverHD()", ""],
+    "default-param-bad-activate": ["flow helper_d $p = \"t\" + 3", "  match NeverHD()", ""],
+    "default-return-bad": ["flow helper_r -> $r = \"t\" + 3", "  match NeverHD()", ""],
+    "startflow-context-params": ["flow helper_p $a", "  match NeverHP()", ""],
+    "meta-intent-bad": ['@meta(user_intent="said {$nope.a}")', "flow helper_i", "  $x = 1", ""],
+    "meta-action-bad": ['@meta(bot_action="did {1/0}")', "flow helper_a", "  $x = 1", ""],
 }
 M_EVENT = {"type": "M", "x": "str"}
+
+
+# ----------------------------------------------------------------------------- translator (static tie, every run)
+
+def translate():
+    """slide()'s dispatch shape + the two sites of the conversion step of process_events as data (Generated/C10Classes.lean)"""
+    info = dict(tr.check_slide_shape())
+    info.update(trc.run())
+    return info
 
 
 # ----------------------------------------------------------------------------- generator
@@ -411,6 +469,105 @@ def instant_case(body, name, max_events):
     return {"kind": "prog", "src": "\n".join(src) + "\n", "events": script, "meta": meta}
 
 
+# ----------------------------------------------------------------------------- wave 6: errors that ESCAPE run_to_completion (converted by process_events)
+
+# external events run_to_completion cannot process (it raises before any flow is looked at: nothing is pending, nothing can be lost):
+# the conversion step of process_events is exercised whatever the state machine catches itself
+BAD_INPUTS = [
+    {"type": "StartFlow"},                      # KeyError 'flow_id'
+    {"type": "StartFlow", "flow_id": "faulty"},  # KeyError 'source_flow_instance_uid'
+    {"type": "ContextUpdate", "data": 3},       # TypeError: 'int' object is not iterable
+]
+BAD_INPUT_TYPES = ("StartFlow", "ContextUpdate")
+REPORTING_HANDLERS = ("h_esc_dq", "h_esc_sq", "h_plain", "h_type_only", "h_twice")
+ESCAPE_HANDLER_SETS = [["h_type_only"], ["h_plain"], ["h_esc_dq"], ["warning of colang errors", "h_esc_dq", "h_plain"], ["h_esc_sq", "h_twice"], [],
+                       ["warning of colang errors", "notification of colang errors"]]
+# statements of a flow that are legal and make run_to_completion raise in a LATER processing round of the same call
+LATE_ESCAPES = {"send-contextupdate-bad": ["send ContextUpdate(data=3)"],
+                # (only in this family: the sending flow must still be alive when the event is processed, otherwise the start is skipped)
+                "startflow-context-params": ['send StartFlow(flow_id="helper_p", flow_instance_uid="u1", context=1)']}
+
+
+def escape_case(rng, kind, names, first, relap, bad_input, batch=False, pad=0):
+    """faulty flow whose erroneous statement raises outside every try block of the state machine (ESCAPE_KINDS / LATE_ESCAPES), or
+    a well-behaved flow next to an external event that run_to_completion rejects (kind None); handler flows `names` observe
+    ColangError; the observers of the external events have an action pending in the very round in which the error is raised"""
+    lines = list(ERR_STMT[kind]) if kind in ERR_STMT else list(LATE_ESCAPES.get(kind, ["$ok = 1"]))
+    body = (lines + ["match Go()"]) if first else (["match Go()"] + lines)
+    body += ["$after = 1", "send After()"]
+    lap = [{"type": "Go"}, {"type": "Next"}]
+    script = [{"type": "Boot"}]
+    if bad_input is not None and rng.random() < 0.5:
+        script.append(dict(bad_input))
+    script += [dict(e) for e in lap]
+    if bad_input is not None:
+        script.append(dict(bad_input))
+        script.append({"type": "Next"})
+    if relap:
+        script += [dict(e) for e in lap]
+    ev_names = []
+    for e in script:
+        if e["type"] not in ev_names and e["type"] not in BAD_INPUT_TYPES:
+            ev_names.append(e["type"])
+    if batch:
+        # several events handed to ONE process_events call ("later events" of the same call): every Next joins the event in front of it
+        merged = []
+        for e in script:
+            if e["type"] == "Next" and merged and merged[-1] is not script[0]:
+                merged[-1] = (merged[-1] if isinstance(merged[-1], list) else [merged[-1]]) + [e]
+            else:
+                merged.append(e)
+        script = merged
+    if pad:
+        # a LONG call: `pad` harmless events in front of the event that makes run_to_completion raise, all handed to one process_events
+        # call (the events counter of the call is well above zero when the conversion happens)
+        for k, x in enumerate(script):
+            if k > 0:
+                script[k] = [{"type": "Pad"} for _ in range(pad)] + (x if isinstance(x, list) else [x])
+        if "Pad" not in ev_names:
+            ev_names.append("Pad")
+    src = hd.handler_src(tr.REPO, names) + ["@active", "flow faulty"] + ["  " + l for l in body] + [""]
+    src += ERR_FLOWS.get(kind, [])
+    src += observer_flows(ev_names, rng.choice(["direct", "direct", "sub"]))
+    src += ["flow main", "  match Never()"]
+    meta = {"mode": "active", "kind": kind or "none", "phase": "escape", "waits_before": 0 if first else 1, "inject_at": 0 if first else 1, "nested": None,
+            "expect_error": kind is not None, "escape": True}
+    if kind is None:
+        meta["quick"] = "bad-input"
+    if names:
+        meta["handlers"] = list(names)
+    if relap:
+        meta["relap"] = True
+    if bad_input is not None:
+        meta["bad_inputs"] = sorted({e["type"] for x in script for e in (x if isinstance(x, list) else [x]) if e["type"] in BAD_INPUT_TYPES})
+    if batch or pad:
+        meta["batch"] = True
+    if pad:
+        meta["pad"] = pad
+    return {"kind": "prog", "src": "\n".join(src) + "\n", "events": script, "meta": meta}
+
+
+def gen_escape_cases(rng, tier):
+    out = []
+    kinds = list(ESCAPE_KINDS) + list(LATE_ESCAPES)
+    reps = 1 if tier == "quick" else 8
+    n = len(ESCAPE_HANDLER_SETS)
+    for r in range(reps):
+        for i, kind in enumerate(kinds):
+            # every kind with a reporting handler set, with another set / none, as the first statement of the activated flow
+            out.append(escape_case(rng, kind, ESCAPE_HANDLER_SETS[(i + r) % 5], first=False, relap=rng.random() < 0.5, bad_input=None))
+            out.append(escape_case(rng, kind, ESCAPE_HANDLER_SETS[(i + r + 3) % n], first=(i + r) % 3 == 0, relap=rng.random() < 0.3,
+                                   bad_input=rng.choice(BAD_INPUTS) if rng.random() < 0.3 else None, batch=(i + r) % 2 == 0))
+        for j, bi in enumerate(BAD_INPUTS):
+            for k in range(2):
+                out.append(escape_case(rng, None, ESCAPE_HANDLER_SETS[(j + 2 * k + r) % n], first=False, relap=bool(k), bad_input=bi))
+            out.append(escape_case(rng, None, ESCAPE_HANDLER_SETS[(j + r) % 5], first=False, relap=True, bad_input=bi, batch=True))
+            out.append(escape_case(rng, None, ESCAPE_HANDLER_SETS[(j + r + 1) % 5], first=False, relap=False, bad_input=bi, pad=rng.choice([9, 14, 30])))
+        for kind in rng.sample(kinds, 4):
+            out.append(escape_case(rng, kind, ESCAPE_HANDLER_SETS[rng.randrange(5)], first=False, relap=False, bad_input=None, pad=rng.choice([9, 14, 30])))
+    return out
+
+
 def gen_handler_cases(rng, tier, base_cases):
     out = []
     n_sets = len(HANDLER_SETS)
@@ -454,7 +611,8 @@ def gen_cases(rng, tier):
         # every position; the kinds rotate so that every (position, kind) pair is hit across programs (thorough: all kinds per position)
         for pos in range(n + 1):
             # (thorough: 35 full sweeps of all 33 kinds at every position -- as many (position, kind) pairs as the 70 sweeps of 20 kinds before)
-            ks = kinds if tier == "thorough" and p % 12 == 0 else [kinds[(p + pos) % len(kinds)], rng.choice(kinds)]
+            # (wave 6: 54 kinds; a full sweep at every 18th program keeps the number of (position, kind) pairs of the 36-kind sweeps at every 12th)
+            ks = kinds if tier == "thorough" and p % 18 == 0 else [kinds[(p + pos) % len(kinds)], rng.choice(kinds)]
             for kind in dict.fromkeys(ks):
                 if mode == "launcher" and pos == 0:
                     continue  # the launcher itself would fail while starting (it is related to the faulty flow)
@@ -470,6 +628,7 @@ def gen_cases(rng, tier):
                 nested = None if opts.get("at_instance") else rng.choice([None, None, "if"])
                 cases.append(build_program(stmts, pos, kind, mode, nested, opts))
     cases += gen_handler_cases(rng, tier, cases)
+    cases += gen_escape_cases(rng, tier)
     for body, name in INSTANT_BODIES:
         for me in ([12, 40] if tier == "quick" else [12, 20, 40, 120]):
             cases.append(instant_case(body, name, me))
@@ -500,6 +659,10 @@ class _R:
     round = None
     round_ctx = None
     frame = None
+    ref_class = None
+    resolve_heads = None  # heads handed to the _resolve_action_conflicts call that is running (None outside)
+    emit_flow = None      # flow whose action event is being evaluated / built inside that call
+    state = None
 
 
 def worker_init():
@@ -528,8 +691,17 @@ def worker_init():
         "finish": sm._finish_flow,
         "start_flow": sm._start_flow,
         "create_ref": sm._create_event_reference,
+        "resolve": sm._resolve_action_conflicts,
+        "geve": sm.get_event_from_element,
+        "cue": sm.create_umim_event,
+        "cfi": sm.create_flow_instance,
+        "logai": sm._log_action_or_intents,
     }
     rm.init()
+    try:
+        _R.ref_class = trc.match_ref_class()  # class of the reference event of `match ColangError()` in the tree under test
+    except Exception:  # noqa
+        _R.ref_class = None
     install()
     # run-time tie of the CoreVM frame theorem vm_advance_frame: wraps the CURRENT statemachine._advance_head_front (nothing else here patches it)
     from ..translate.c10_frame import FrameRecorder
@@ -656,12 +828,18 @@ def install():
                 st["failed_uids"].append(event.arguments.get("source_flow_instance_uid"))
                 st["failed_flows"].append(str(event.arguments.get("flow_id")))
         rnd = _R.round
-        if rnd is None:
-            return O["pie"](state, event)
-        rnd.pop_begin(state, event)
-        r = O["pie"](state, event)
-        rnd.pop_end(state)
-        return r
+        if st is not None:
+            st["in_pie"] = True
+        try:
+            if rnd is None:
+                return O["pie"](state, event)
+            rnd.pop_begin(state, event)
+            r = O["pie"](state, event)
+            rnd.pop_end(state)
+            return r
+        finally:
+            if st is not None:
+                st["in_pie"] = False
 
     def push_w(state, event):
         if _R.round is not None:
@@ -746,10 +924,70 @@ def install():
                 raise
         return w
 
+    # -- errors of a statement raised OUTSIDE slide / the matching scan (wave 6) ---------------------------------------------------------
+    def _emit_err(flow_state, e):
+        st = _R.st
+        if st is not None and flow_state is not None:
+            st["errs"].append([flow_state.uid, flow_state.flow_id, "emit", type(e).__name__])
+        if _R.round is not None and flow_state is not None:
+            for h in _R.resolve_heads or []:
+                if h.flow_state_uid == flow_state.uid:
+                    _R.round.err_head = h.uid
+                    break
+
+    def resolve_w(state, actionable_heads):
+        prev = _R.resolve_heads
+        _R.resolve_heads, _R.emit_flow = list(actionable_heads), None
+        try:
+            return O["resolve"](state, actionable_heads)
+        finally:
+            _R.resolve_heads = prev
+
+    def geve_w(state, flow_state, element):
+        if _R.resolve_heads is None:
+            return O["geve"](state, flow_state, element)
+        _R.emit_flow = flow_state
+        try:
+            return O["geve"](state, flow_state, element)
+        except Exception as e:  # noqa -- the arguments of the action statement are evaluated a second time when the action event is created
+            _emit_err(flow_state, e)
+            raise
+
+    def cue_w(event, event_args):
+        if _R.resolve_heads is None:
+            return O["cue"](event, event_args)
+        try:
+            return O["cue"](event, event_args)
+        except Exception as e:  # noqa -- the outgoing UMIM event is rejected by utils.new_event_dict (wrong-typed / reserved parameter)
+            _emit_err(_R.emit_flow, e)
+            raise
+
+    def cfi_w(flow_config, flow_instance_uid, flow_hierarchy_position, event_arguments):
+        try:
+            return O["cfi"](flow_config, flow_instance_uid, flow_hierarchy_position, event_arguments)
+        except Exception as e:  # noqa -- the instance cannot be created (bad default value expression, context shared with a parametrised flow)
+            st = _R.st
+            if st is not None and st.get("in_pie"):  # (the matcher also builds temporary instances for `match flow().Finished()`: inside try blocks)
+                st["errs"].append([str(event_arguments.get("source_flow_instance_uid")), flow_config.id, "start", type(e).__name__])
+                if _R.round is not None:
+                    _R.round.start_failed(flow_config.id)
+            raise
+
+    def logai_w(state, flow_state, matching_scores):
+        try:
+            return O["logai"](state, flow_state, matching_scores)
+        except Exception as e:  # noqa -- bad expression in the meta tag of the flow decorator, evaluated when the flow finishes
+            st = _R.st
+            if st is not None:
+                st["errs"].append([flow_state.uid, flow_state.flow_id, "finish", type(e).__name__])
+            raise
+
     def rtc_w(state, ev):
         st = _R.st
         rc = _R.round_ctx
         rnd = None
+        if st is not None and not isinstance(ev, dict) and getattr(ev, "name", None) == "ColangError":
+            st["conv_classes"].append(type(ev).__name__)  # the event process_events created for an exception that left run_to_completion
         if st is not None:
             st["rtc_calls"] += 1
             if st["rtc_calls"] > st["rtc_limit"]:
@@ -790,6 +1028,11 @@ def install():
     sm._start_flow = handling_w("start_flow")
     sm._create_event_reference = handling_w("create_ref")
     sm._finish_flow = finish_w
+    sm._resolve_action_conflicts = resolve_w
+    sm.get_event_from_element = geve_w
+    sm.create_umim_event = cue_w
+    sm.create_flow_instance = cfi_w
+    sm._log_action_or_intents = logai_w
 
 
 def _close_round(st, rnd):
@@ -877,10 +1120,13 @@ def run_impl(case):
     for ev in case["events"]:
         st = {"slides": 0, "moves": 0, "ievents": 0, "colang_errors": 0, "rtc_exc": [], "samples": [], "scans": [], "scan": None,
               "over_bound": [], "max_iter_ratio": 0.0, "budget": 10 ** 9, "rounds": [], "errs": [], "failed_uids": [], "failed_flows": [], "rtc_site": [], "leaf": [],
-              "err_texts": [], "phases": 0, "phase_limit": 10 ** 9, "rtc_calls": 0, "rtc_limit": 10 ** 9}
+              "err_texts": [], "phases": 0, "phase_limit": 10 ** 9, "rtc_calls": 0, "rtc_limit": 10 ** 9, "conv_classes": []}
         st["budget"] = BUDGET_FACTOR * (sum(len(p) for p in progs.values()) + 10)
         _R.st = st
-        call = {"event": ev["type"], "out": [], "pe_exc": None, "budget_hit": None}
+        evs_in = ev if isinstance(ev, list) else [ev]  # a list = several events handed to one process_events call
+        call = {"event": "+".join(e["type"] for e in evs_in), "out": [], "pe_exc": None, "budget_hit": None}
+        if isinstance(ev, list):
+            call["events"] = [e["type"] for e in evs_in]
         signal.setitimer(signal.ITIMER_VIRTUAL, 15.0, 1.0)
         max_events0 = _R.rt.max_events
         if case["meta"].get("max_events"):
@@ -888,7 +1134,7 @@ def run_impl(case):
         st["rtc_limit"] = _R.rt.max_events + 2  # anchor runtime.max_events: at most that many events (= processing rounds) per call
         try:
             with contextlib.redirect_stdout(io.StringIO()):
-                out, state = asyncio.run(_R.rt.process_events([dict(ev)], state, instant_actions=case["meta"].get("instant")))
+                out, state = asyncio.run(_R.rt.process_events([dict(e) for e in evs_in], state, instant_actions=case["meta"].get("instant")))
             call["out"] = [e["type"] for e in out]
         except Budget as b:
             call["budget_hit"] = str(b)
@@ -900,12 +1146,15 @@ def run_impl(case):
             _R.cur = None
             _R.rt.max_events = max_events0
         call["rtc_calls"] = st["rtc_calls"]
+        call["reported"] = call["out"].count("Reported")  # marker event of the user-written ColangError handlers (hd.HANDLERS)
         call.update({k: st[k] for k in ("slides", "moves", "ievents", "colang_errors", "rtc_exc", "rtc_site", "max_iter_ratio")})
         # every flow INSTANCE in which a statement raised: what became of it by the end of this call
         call["errs"] = len(st["errs"])
         call["leaf"] = list(st["leaf"])
         call["failed_flows"] = sorted(set(st["failed_flows"]))
         call["err_types"] = sorted({e[3] for e in st["errs"]})
+        call["err_phases"] = sorted({e[2] for e in st["errs"]})
+        call["conv_classes"] = list(st["conv_classes"])
         call["phases"] = st["phases"]
         call["handler_errs"] = sorted({e[1] for e in st["errs"] if e[1] in obs.get("handlers", {})})
         for t in st["err_texts"]:
@@ -915,7 +1164,9 @@ def run_impl(case):
         if not (call["budget_hit"] or call["pe_exc"] or state is None):
             seen_uid = set()
             for uid, fid, phase, _t in st["errs"]:
-                if uid in seen_uid:
+                if uid in seen_uid or phase in ("start", "finish"):
+                    # start: the instance was never created (the flow that wanted to start it is failed by the FlowFailed report, if it
+                    # waits for the start); finish: the flow had finished when its decorator's meta tag was evaluated
                     continue
                 seen_uid.add(uid)
                 fs = state.flow_states.get(uid)
@@ -944,12 +1195,13 @@ def run_impl(case):
         from nemoguardrails.colang.v2_x.runtime import eval as ev_mod
         from nemoguardrails.colang.v2_x.runtime import utils as ut_mod
         texts = list(obs["texts"])
-        for e in case["events"]:
+        for e in [x for y in case["events"] for x in (y if isinstance(y, list) else [y])]:
             t = e.get("text")
             if isinstance(t, str) and t not in texts and len(texts) < 12:
                 texts.append(t)
         obs["pipeline"] = [hd.pipeline(_R.orig["eval"], ev_mod._escape_string, ut_mod.escape_special_string_characters, t) for t in texts]
     del obs["texts"]
+    obs["ref_class"] = _R.ref_class
     if fr is not None:
         obs["frame"] = dict(fr.summary(), first=[list(v) for v in fr.violations[:3]])
     obs["round_orphans"] = obs["round_orphans"][:3]
@@ -1139,7 +1391,29 @@ def model_requests(case, obs):
         reqs.append({"m": "C10.round", "prog": obs["rprog"], "rounds": [{"tokens": r["tokens"], "steps": r["steps"]} for r in obs["rounds_full"]]})
     if "pipeline" in obs:
         reqs.append({"m": "C10.escape", "texts": [p["text"] for p in obs["pipeline"]], "templates": obs.get("templates", [])})
+    c = _conversion_call(case, obs)
+    if c is not None:
+        reqs.append({"m": "C10.convert", "raised": [1 + (sum(map(ord, x)) % 97) for x in c["rtc_exc"]],
+                     "converted_class": trc.CLASS_CODES.get(c["conv_classes"][0], 9), "ref_class": trc.CLASS_CODES.get(obs.get("ref_class"), 9)})
     return reqs
+
+
+def _reporting(case, obs):
+    hs = obs.get("handlers", {})
+    rep = [h for h in case.get("meta", {}).get("handlers", []) if h in REPORTING_HANDLERS and h in hs]
+    return rep if rep and all(v[0] for v in hs.values()) else []
+
+
+def _conversion_call(case, obs):
+    """the first process_events call of the run in which exceptions left run_to_completion, were converted, and nothing else was reported
+    (every ColangError event of the call is a converted one) — in a program with total reporting handlers: the instance of the Lean
+    model of the conversion loop (Models/ProcessEvents.lean) this run is compared with"""
+    if case["kind"] != "prog" or not _reporting(case, obs):
+        return None
+    for c in obs.get("calls", []):
+        if len(c["rtc_exc"]) == 1 and not (c["budget_hit"] or c["pe_exc"]) and len(c.get("conv_classes", [])) == 1 and c["colang_errors"] == 1:
+            return c
+    return None
 
 
 def _real_stop(rec, prog):
@@ -1227,6 +1501,18 @@ def compare(case, obs, mouts):
                     return f"round machine: B(program, state) Lean {mr['bound']} vs Python {r['bound']}"
                 if isinstance(mr["replay"], str):
                     return "round machine: a recorded real step is not a step of the abstraction: " + mr["replay"][:300]
+    cc = _conversion_call(case, obs)
+    if cc is not None:
+        # (the request is the LAST one: index -1 whatever the optional requests in front of it)
+        m = mouts[-1]
+        rep = _reporting(case, obs)
+        if m["generated_converted"] != trc.CLASS_CODES.get(cc["conv_classes"][0], 9) or m["generated_ref"] != trc.CLASS_CODES.get(obs.get("ref_class"), 9):
+            return (f"conversion step: the classes the translator extracted (converted {m['generated_converted']}, reference {m['generated_ref']}) are not the ones "
+                    f"observed at run time ({cc['conv_classes'][0]}, {obs.get('ref_class')})")
+        if m["reactions"] * len(rep) != cc.get("reported", 0) or m["delivered"] != len(cc["rtc_exc"]):
+            return (f"conversion step ({cc['event']}): {len(cc['rtc_exc'])} exception(s) left run_to_completion; the model of the loop (class test "
+                    f"{'passes' if m['may_match_observed'] else 'fails'}) predicts {m['reactions']} reaction(s) of each observer of ColangError, the real "
+                    f"handlers {rep} reacted {cc.get('reported', 0)} time(s)")
     if "pipeline" in obs:
         m = mouts[i]
         i += 1
@@ -1320,10 +1606,35 @@ def oracle(case, obs):
             return f"slide on acyclic flow {f} made {it} iterations > |elements|+1 = {n + 1}"
     if len(obs["calls"]) != len(case["events"]):
         return "event script not completed"
+    # "is reported as a ColangError event": a report is an event a flow can MATCH. Programs with an activated, total handler flow that
+    # answers every `match ColangError()` with the marker event Reported: (i) every exception that left run_to_completion and was converted
+    # by process_events is delivered in a processing round of its own, in which the handler waits -> one reaction per conversion;
+    # (ii) a call in which ColangError events were processed shows at least one reaction (two errors of ONE round may find the handler busy)
+    hs = obs.get("handlers", {})
+    reporting = [h for h in meta.get("handlers", []) if h in REPORTING_HANDLERS and h in hs]
+    if reporting and all(v[0] for v in hs.values()):
+        for c in obs["calls"]:
+            if c["budget_hit"] or c["pe_exc"]:
+                continue
+            conv = len(c["rtc_exc"])
+            if c.get("reported", 0) < conv * len(reporting):
+                return (f"{conv} exception(s) {c['rtc_exc']} left run_to_completion while processing {c['event']} and were converted into ColangError "
+                        f"events by process_events, but the activated flow(s) {reporting} waiting for `match ColangError()` reacted only "
+                        f"{c.get('reported', 0)} time(s): the converted error is not an event a flow can match")
+            if c["colang_errors"] > 0 and c.get("reported", 0) < 1:
+                return (f"{c['colang_errors']} ColangError event(s) were processed while handling {c['event']} but the activated flow(s) {reporting} "
+                        f"waiting for `match ColangError()` did not react: the error report is not an event a flow can match")
     for c in obs["calls"]:
-        if "Seen" + c["event"] not in c["out"]:
-            why = f" (run_to_completion raised {c['rtc_exc']})" if c["rtc_exc"] else ""
-            return f"observer flow did not react to event {c['event']}{why}: outgoing {c['out'][:6]}"
+        for name in c.get("events", [c["event"]]):
+            if name in meta.get("bad_inputs", []):
+                continue  # an external event run_to_completion rejects: nobody can observe it (the clauses on the report and on later events apply)
+            if "Seen" + name not in c["out"]:
+                why = f" (run_to_completion raised {c['rtc_exc']})" if c["rtc_exc"] else ""
+                return f"observer flow did not react to event {name}{why}: outgoing {c['out'][:6]}"
+            if c.get("events") and c["out"].count("Seen" + name) < c["events"].count(name):
+                # several events of one call: each is processed in a round of its own, the activated observer is waiting again every time
+                return (f"observer flow reacted {c['out'].count('Seen' + name)} time(s) to the {c['events'].count(name)} {name} events handed to one "
+                        f"process_events call (run_to_completion raised {c['rtc_exc']})")
     if meta.get("expect_error") and meta["kind"] != "abort":
         if sum(c["colang_errors"] for c in obs["calls"]) == 0:
             return f"no ColangError event was produced for the injected {meta['kind']} error"
@@ -1378,12 +1689,23 @@ def signature(case, obs, msg):
             return "error-raised-while-matching"
     if "changed during _advance_head_front" in msg:
         return "frame:bystander-changed"
-    if "run_to_completion raised" in msg or "(advance phase)" in msg or "(handle phase)" in msg or \
+    if "run_to_completion raised" in msg or "(advance phase)" in msg or "(handle phase)" in msg or "(emit phase)" in msg or \
             ("ColangError event(s) were processed in that call" in msg and any(c.get("rtc_site") for c in obs.get("calls", []))):
         # an exception left run_to_completion (the observer missed the event / the instance that raised was not failed / no ColangError
         # was processed by the state machine): WHERE it was raised (outermost statemachine frames) is the structural signature
         for c in obs.get("calls", []):
             for site in c.get("rtc_site", []):
+                # wave 6: raise sites outside every try block that a STATEMENT of a flow reaches (the exception is converted by process_events,
+                # but the round is abandoned: the flow is not failed, pending actions of other flows are lost and their heads stay parked)
+                if "_resolve_action_conflicts" in site and "create_umim_event" in site:
+                    # (only the VALIDATION of the outgoing event: an exception of the second evaluation of the statement's arguments —
+                    # get_event_from_element under _resolve_action_conflicts — is not this finding: on the pinned tree slide has evaluated
+                    # them before, inside the try block; seed C10-c)
+                    return "error-raised-while-creating-action-event"
+                if "create_flow_instance" in site or ("_process_internal_events_without_default_matchers" in site and (meta["kind"] in ESCAPE_KINDS or meta["kind"] in LATE_ESCAPES)):
+                    return "error-raised-while-creating-flow-instance"
+                if "_log_action_or_intents" in site:
+                    return "error-raised-while-logging-finished-flow"
                 if "_handle_event_matching" in site:
                     return "error-raised-while-handling-match"
                 if "_process_internal_events_without_default_matchers" in site:
@@ -1423,7 +1745,7 @@ def tags(case, obs):
         t.append("nested:" + meta["nested"])
     if meta.get("at_instance"):
         t.append("error-at-instance:" + str(meta["at_instance"]))
-    for k in ("relap", "obs_first"):
+    for k in ("relap", "obs_first", "batch"):
         if meta.get(k):
             t.append("opt:" + k)
     if meta.get("obs_style"):
@@ -1454,6 +1776,22 @@ def tags(case, obs):
             t.append("budget-hit")
         if any(c["rtc_exc"] for c in obs["calls"]):
             t.append("escaped-run_to_completion")
+            for c in obs["calls"]:
+                for site in c.get("rtc_site", []):
+                    t.append("escape-site:" + (site[-1] if site else "outside-statemachine"))
+                for x in c["rtc_exc"]:
+                    t.append("converted-error:" + x)
+            if any(c["rtc_exc"] and c.get("reported") for c in obs["calls"]):
+                t.append("converted-error-observed-by-handler")
+        if meta.get("bad_inputs"):
+            t.append("bad-input:" + "+".join(meta["bad_inputs"]))
+        if meta.get("pad"):
+            t.append("events-in-call:" + ("10-19" if meta["pad"] < 18 else "20+"))
+        if meta.get("escape"):
+            t.append("family:escape")
+        for c in obs["calls"]:
+            for ph in c.get("err_phases", []):
+                t.append("error-phase:" + ph)
         if any(c["colang_errors"] for c in obs["calls"]):
             t.append("colang-error-event")
         for r in obs["samples"]:
